@@ -506,6 +506,14 @@ func runC15(c *ev.Ctx) {
 			}
 		}
 	}
+	// walks whose extreme is reached within a bit or two of a 64-bit word boundary (word-at-a-time byte paths)
+	for _, nb := range []int{128, 256, 1000, 2504} {
+		for _, k := range []int{1, 2, 3, 31, 32, 33, 62, 63} {
+			for o := 0; o < 4; o++ {
+				cases = append(cases, epCase{gen.Seq{Fam: "cusumword", N: nb * 8, A: k, B: o, Seed: gen.Mix(seed, 1515, uint64(nb), uint64(k), uint64(o))}})
+			}
+		}
+	}
 	if c.Lite() {
 		var keep []epCase
 		for i, cs := range cases {
